@@ -20,6 +20,8 @@ CLAIMED = {
              note='A-PY, A-DEP for pandas/sqlite/CSV files'),
  'C07': dict(cat='proof', ref='5/C07', text='select_output_header is proved, for every list of column infos and every input/join header, to return exactly the header of the naming rule (alias; source column name for aN/a[N]/a.name/a["name"]/stars; identifier; colK by output position), None exactly when there is no input header and no alias, and to reject star+alias without header; the text -> AST -> column-info step and header-vs-record width through the writers are checked by a bounded stand-in (22 item kinds, 1-2 items, header/join on-off)',
              note='ast.parse / ast.walk (CPython parser) are dependencies: bounded only; known finding F3 (DISTINCT COUNT with a CSV header) recorded; F2 (a[N] names on Python >= 3.9) repaired by fix commit'),
+ 'C09': dict(cat='proof', ref='5/C09', text='the CSV header state machine is proved: construction reads the first record ahead (header held back / data handed out first, exactly once), handle_query_modifier makes WITH (header)/(noheader) override the caller flag, get_header returns the first record iff has_header, and get_record returns the next record of the remaining content (so the header line is never returned as data once consumed); name -> variable mapping (escaping of names, discovery regexes) is regex driven and checked by a bounded stand-in (20 special names x positions x quote styles x 4 query shapes, direct mode, CSV x flag x modifier x join)',
+             note='A-IO stream contract, A-RE-* regex contracts (bounded validation); python string-literal decoding of escaped names: bounded only'),
  'C10': dict(cat='proof', ref='5/C10', text='field extraction and quoted-line splitting are proved against the character-level dialect spec (shared with C11); the write-then-read round trip, the lossy-output warnings and latin-1 byte preservation are checked by a bounded stand-in over dialect-critical tables (labelled bounded); multi-character delimiters: see known findings',
              note='A-RE-field (anchored field regexes end at the scanner end; validated exhaustively to length 7/9), A-PY string model, codecs (A-IO); round trip itself is bounded, not proved'),
  'C11': dict(cat='proof', ref='5/C11', text='extract_next_field and split_quoted_str are proved, for every line and single-character delimiter, to produce exactly the fields, next index and warning flag of the dialect spec (quoted iff quoted form followed by delimiter/EOL; other fields extend to the next delimiter; warning iff an unquoted field contains a quote); the scanner formulation of the spec is validated against the declarative sentence exhaustively to length 7/9 (bounded)',
